@@ -26,6 +26,9 @@ UNSET = object()
 ANY = object()  # outcome value that is not checked (e.g. a constructor's return)
 
 
+RETURNED_EXC = ValueError("an exception instance handed back as a plain return value")
+
+
 class Boom(RuntimeError):  # a RuntimeError on purpose: the sync facade must not mistake a user's RuntimeError for 'a loop is already running'
     def __init__(self, idx):
         super().__init__(f"Boom({idx})")
@@ -236,11 +239,11 @@ class Script:
             self._value_count += 1
             if self.special is None:
                 pos = ctx.choose(self.special_positions + 1, "special.pos")
-                kind = ctx.choose(6, "special.kind") if pos < self.special_positions else 0
+                kind = ctx.choose(7, "special.kind") if pos < self.special_positions else 0
                 self.special = (pos, kind)
             if k == self.special[0]:
                 self.special_used = True
-                return [None, [], [ctx.sym_int(f"v:{label}", 0, 1)], (), {}, ""][self.special[1]]
+                return [None, [], [ctx.sym_int(f"v:{label}", 0, 1)], (), {}, "", RETURNED_EXC][self.special[1]]
             return ctx.sym_int(f"v:{label}", -3, 3)
         if self.values == "kinds":
             k = ctx.choose(7, f"vk:{label}")
@@ -624,6 +627,8 @@ def same_value(a, b):
         return _perm_equal(a.before, b[: len(a.before)]) and _perm_equal(a.on, b[len(a.before):])
     if a is None or b is None:
         return a is None and b is None
+    if isinstance(a, BaseException) or isinstance(b, BaseException):
+        return a is b
     if isinstance(a, (list, tuple)) or isinstance(b, (list, tuple)):
         if type(a) is not type(b) or len(a) != len(b):
             return False
